@@ -404,7 +404,9 @@ func skipPositionalValues(source io.Reader) error {
 func skipValue(source io.Reader) error {
 	if length, err := primitive.ReadInt(source); err != nil {
 		return fmt.Errorf("cannot read [value] length: %w", err)
-	} else if length <= 0 {
+	} else if length < -2 {
+		return fmt.Errorf("invalid [value] length: %d", length)
+	} else if length <= 0 { // empty, null (-1) or unset (-2): no content follows
 		return nil
 	} else {
 		if _, err = io.CopyN(ioutil.Discard, source, int64(length)); err != nil {
